@@ -123,6 +123,13 @@ def _tag(r, *vs):
     return r
 
 
+class UserFn:
+    """a function of the code under verification that is inlined at its call sites (helper without contract, nested def).
+    A nested function reads the variables of its defining function as they are at the call (it must be called from there)."""
+    def __init__(self, fdef, globs, nested):
+        self.fdef, self.globs, self.nested = fdef, globs, nested
+
+
 class SymIter:
     """a symbolic iterable: ``length`` (SInt or int) and ``item(ex, st, k)`` for the loop rule"""
     def __init__(self, length, item):
@@ -140,6 +147,14 @@ def loops_in_order(fn):
     out = []
 
     class V(ast.NodeVisitor):
+        def visit_FunctionDef(self, n):
+            if n is fn:
+                self.generic_visit(n)
+            # loops of nested helper functions are not numbered: they are inlined at their call sites and must be unrollable
+
+        def visit_Lambda(self, n):
+            pass
+
         def visit_For(self, n):
             out.append(n)
             self.generic_visit(n)
@@ -189,6 +204,16 @@ class Exec:
         self.fresh = itertools.count()
         self.loops = loops_in_order(fn_ast)
         self.loop_id = {id(n): k for k, n in enumerate(self.loops)}
+        lm = contract.get('loop_match')
+        if lm:
+            # loops are bound by what they iterate over, not by their ordinal: key -> (substring of the iterable's source, occurrence);
+            # every other loop is unnumbered and must iterate over a concrete (unrollable) collection
+            self.loop_id = {}
+            for key, (sub, nth) in lm.items():
+                hits = [n for n in self.loops if isinstance(n, ast.For) and sub in ast.unparse(n.iter)]
+                if len(hits) <= nth:
+                    raise ContractError(f'no loop #{nth} over `{sub}` in the verified text: the contract does not bind')
+                self.loop_id[id(hits[nth])] = key
         self.prims = dict(prims or {})          # callable object -> model function(ex, st, args, kwargs, node)
         self.kinds = {'int': lambda n: SInt(z3.Int(n)), 'bool': lambda n: SBool(z3.Bool(n)),
                       'real': lambda n: SReal(z3.Real(n)), 'bv8': lambda n: SBV(z3.BitVec(n, 8)),
@@ -199,6 +224,7 @@ class Exec:
             self.c = dict(self.c)
             self.c['const_hook'] = self.c['const_hook_factory'](self)
         self.in_loop = 0
+        self.inline_depth = 0
         self.assumed = set()          # names of assumed primitive models actually used
         self.st0 = None
         self.finished = []            # states that reached the postcondition
@@ -565,8 +591,114 @@ class Exec:
         import math
         if getattr(f, '__module__', None) == 'math' and not kwargs and all(not is_sym(a) and not isinstance(a, Model) for a in args):
             return f(*args)         # pure function of the math module on concrete numbers
+        uf = self.user_function(f)
+        if uf is not None:
+            return self.inline(st, uf, args, kwargs, node)
         name = getattr(f, '__name__', repr(f))
         raise NotInSubset(f'call of {name} (no contract, not a modelled primitive), line {node.lineno}')
+
+    def user_function(self, f):
+        """a function of the package under verification that has no contract: its current source is inlined at the call site
+        (exact, non-recursive).  numba.njit / the pure-Python fallback wrapper are treated as the identity (decorators are dropped)."""
+        if isinstance(f, UserFn):
+            return f
+        import types
+        if not isinstance(f, types.FunctionType):
+            return None
+        if f.__name__ == 'inner' and f.__closure__:
+            for cell in f.__closure__:
+                try:
+                    v = cell.cell_contents
+                except ValueError:
+                    continue
+                if isinstance(v, types.FunctionType):
+                    f = v
+                    break
+        mod = getattr(f, '__module__', '') or ''
+        if not (mod == 'kyupy' or mod.startswith('kyupy.')):
+            return None
+        from . import source
+        try:
+            _, tree = source.module_ast(mod.split('.', 1)[1] if '.' in mod else '__init__')
+        except OSError:
+            return None
+        for x in tree.body:
+            if isinstance(x, ast.FunctionDef) and x.name == f.__name__:
+                return UserFn(x, f.__globals__, nested=False)
+        return None
+
+    def inline(self, st, uf, args, kwargs, node):
+        if self.inline_depth >= 6:
+            raise NotInSubset(f'inlining depth exceeded at call of {uf.fdef.name}')
+        fd = uf.fdef
+        a = fd.args
+        if a.kwarg is not None:
+            raise NotInSubset(f'inlined call of {fd.name}: **kwargs parameter')
+        names = [p.arg for p in a.posonlyargs + a.args]
+        # ghost variables of the contract (dunder names) stay visible inside the inlined frame
+        env = dict(st.env) if uf.nested else {k: v for k, v in st.env.items() if k.startswith('__')}
+        saved_globs = self.globs
+        self.globs = uf.globs if uf.globs is not None else self.globs
+        self.inline_depth += 1
+        try:
+            pos = list(args)
+            if len(pos) > len(names) and a.vararg is None:
+                raise NotInSubset(f'inlined call of {fd.name}: too many positional arguments')
+            bound = dict(zip(names, pos))
+            if a.vararg is not None:
+                bound[a.vararg.arg] = tuple(pos[len(names):])
+            kwargs = dict(kwargs)
+            for nm in names + [p.arg for p in a.kwonlyargs]:
+                if nm in kwargs:
+                    if nm in bound:
+                        raise NotInSubset(f'inlined call of {fd.name}: argument {nm} given twice')
+                    bound[nm] = kwargs.pop(nm)
+            if kwargs:
+                raise NotInSubset(f'inlined call of {fd.name}: unexpected keyword arguments {sorted(kwargs)}')
+            tmp = State()
+            ndef = len(a.defaults)
+            for i, nm in enumerate(names):
+                if nm not in bound:
+                    j = i - (len(names) - ndef)
+                    if j < 0:
+                        raise NotInSubset(f'inlined call of {fd.name}: missing argument {nm}')
+                    bound[nm] = self.ev(tmp, a.defaults[j])
+            for p_, d_ in zip(a.kwonlyargs, a.kw_defaults):
+                if p_.arg not in bound:
+                    if d_ is None:
+                        raise NotInSubset(f'inlined call of {fd.name}: missing keyword argument {p_.arg}')
+                    bound[p_.arg] = self.ev(tmp, d_)
+            env.update(bound)
+            sub = st.fork()
+            sub.env, sub.ctl, sub.ret = env, None, None
+            npc = len(st.pc)
+            outs = self.run_block([sub], fd.body)
+            for q in outs:
+                if q.ctl not in (None, 'return'):
+                    raise NotInSubset(f'{q.ctl} outside a loop in inlined {fd.name}')
+                if q.ctl is None:
+                    q.ret = None
+                q.ctl = None
+            if len(outs) == 1:
+                m, ret = outs[0], outs[0].ret
+            else:
+                for q in outs:
+                    q.env = {'__ret__': q.ret}
+                m = self.merge_states(npc, outs, node)
+                if m is None:
+                    raise NotInSubset(f'inlined call of {fd.name}: its paths cannot be merged into one value')
+                ret = m.env.get('__ret__')
+            st.heap, st.pc, st.tags, st.decided = m.heap, m.pc, m.tags, m.decided
+            return ret
+        finally:
+            self.inline_depth -= 1
+            self.globs = saved_globs
+
+    def s_FunctionDef(self, st, s):
+        if any(isinstance(x, (ast.Nonlocal, ast.Global, ast.Yield, ast.YieldFrom)) for x in ast.walk(s)):
+            raise NotInSubset(f'nested function {s.name} with nonlocal/global/yield (line {s.lineno})')
+        st.env[s.name] = UserFn(s, None, nested=True)
+        return [st]
 
     def builtin_call(self, st, f, args, kwargs, node):
         """models of Python builtins on symbolic values (Python semantics: min/max keep the first of equal arguments)"""
@@ -645,6 +777,12 @@ class Exec:
             return abs(a)
         if f is bool and len(args) == 1:
             return self.truth(st, args[0], node)
+        if f in (any, all) and len(args) == 1 and not kwargs:
+            from .logic import Or, And
+            vals = [self.truth(st, v, node) for v in self.iter_concrete(st, args[0], node)]
+            if not vals:
+                return f([])
+            return (Or if f is any else And)(*vals) if len(vals) > 1 else vals[0]
         if f is list and len(args) == 1:
             return list(self.iter_concrete(st, args[0], node))
         if f is tuple and len(args) == 1:
@@ -895,7 +1033,9 @@ class Exec:
         return [st]
 
     def loop_spec(self, node):
-        k = self.loop_id[id(node)]
+        k = self.loop_id.get(id(node))
+        if k is None:
+            raise ContractError(f'loop at line {node.lineno} inside an inlined helper iterates over a symbolic range (needs a contract)')
         spec = self.c.get('loops', {}).get(k)
         if spec is None:
             raise ContractError(f'loop #{k} (line {node.lineno}) needs an invariant and the contract has none')
@@ -907,7 +1047,7 @@ class Exec:
             it = it.m_iter(self, st, s)
         if is_sym(it):
             raise NotInSubset('iteration over a symbolic scalar')
-        if isinstance(it, range) and it.step == 1 and self.loop_id[id(s)] in self.c.get('loops', {}):
+        if isinstance(it, range) and it.step == 1 and self.loop_id.get(id(s)) in self.c.get('loops', {}):
             # a concrete range for which the contract supplies an invariant: cut by the invariant instead of unrolling
             lo = it.start
             it = SymIter(len(it), lambda ex, st_, k, lo=lo: lo + k)
@@ -1081,7 +1221,7 @@ class Exec:
         return after
 
     def s_While(self, st, s):
-        ub = self.c.get('unroll', {}).get(self.loop_id[id(s)])
+        ub = self.c.get('unroll', {}).get(self.loop_id.get(id(s)))
         if ub is not None:
             return self.unrolled_while(st, s, ub)
         k, spec = self.loop_spec(s)
